@@ -18,6 +18,7 @@ THEOREMS = [
     "PyTrie.Props.C10.nodes_are_traverse",
     "PyTrie.Props.C10.nodes_preorder",
     "PyTrie.Props.C10.nodes_complete",
+    "PyTrie.Props.C10.nodes_loop_is_preorder",
 ]
 RULE = ("tries built by generated histories (keys that are prefixes of other keys, the empty key, embedded nodes, values on "
         "branches, children 0 and 15); keys()/items()/values()/nodes() sequences and next(k) for every stored key, its "
